@@ -55,6 +55,23 @@ CLAIMED = {
         "and compared through integer square roots; float rounding bounded by tolerance; harness. No axioms.",
         "DESIGN.md section 5, C08",
     ),
+    "C17": (
+        "Coq/MathComp proofs (characters of Z_d for DC/Nyquist multiplicativity, sign-vector unitarity, quadratic-form "
+        "certificate theorems) over a hand-written executable model, with _refuted witness lemmas for the two clauses "
+        "the code violates; correspondence check in Coq at Z incl. certificate re-verification",
+        "Theorems over every real domain: DC and (even d) Nyquist coefficients are multiplicative under HRR binding, hence "
+        "the raw sign of a binding is the product of raw signs; the constructed sign is the component-wise product when d is "
+        "odd or no Nyquist coefficient vanishes (partial; refuted otherwise with witness [1,1],[0,1]); HrrSign classification "
+        "is total and exactly-one outside the class dc=0/nyquist<>0, where it raises (refuted witness [1,-1]); every definite "
+        "non-zero sign vector is unitary and binding it back onto abs v reconstructs v; a congruence certificate V=LDL^T with "
+        "unit L decides positive/negative definiteness, zero, or indefiniteness of the quadratic form; GenericSign predicates "
+        "are exclusive and exhaustive. Stated, not proved (tie only): abs v is positive and abs is idempotent; the "
+        "certificate classifier <-> eigenvalue definition. Tie: all (dc,nyquist) sign classes for d<=32 (64), products, abs, "
+        "to_vector, SemanticPointer.sign()/abs(); VTB/TVTB matrices from certificates s<=4 (7) incl. non-symmetric.",
+        "Trusted: Coq kernel + vm_compute; models Model/Hrr.v, Model/Sign.v; LAPACK eigvalsh / NumPy rfft observed only "
+        "through results, boundary cases restricted to inputs on which rfft is exact; two known findings replayed each run.",
+        "DESIGN.md section 5, C17",
+    ),
 }
 
 NOT_YET = "not yet built in this revision of /verif (design in DESIGN.md section 5); no check is claimed"
